@@ -188,3 +188,24 @@ def unit_dual_quaternion_norm(env, cfg, ck):
     n = ck.call(d.norm)
     ck.eq('norm:real', n[0], 1, tol=1e-6)
     ck.eq('norm:dual', n[1], 0, tol=1e-6, scale=1 + A.normsq(np, t))
+
+
+@contract('C12', targets=[D + 'DualQuaternion.__mul__', D + 'UnitDualQuaternion.__init__', D + 'DualQuaternion.norm'])
+def unit_dual_quaternion_product_is_the_dual_number_product(env, cfg, ck):
+    """the product of two UnitDualQuaternion objects is the dual-number Hamilton product of their parts,
+    (p, dp)(q, dq) = (p q, p dq + dp q), for every sign of the scalar parts; it equals the product of the same eight
+    numbers held as plain DualQuaternions, and its norm is (1, 0)"""
+    np, sm = env.np, env.sm
+    p, q = env.unitvec('p', 4), env.unitvec('q', 4)
+    s, t = env.reals('s', 3), env.reals('t', 3)
+    dp, dq = 0.5 * A.hamilton(np, [0] + list(s), p), 0.5 * A.hamilton(np, [0] + list(t), q)
+    mk = lambda C, a, b: C(sm.UnitQuaternion(np.array(a), norm=False, check=False) if C is sm.UnitDualQuaternion else sm.Quaternion(np.array(a)), sm.Quaternion(b))
+    X, Y = mk(sm.UnitDualQuaternion, p, dp), mk(sm.UnitDualQuaternion, q, dq)
+    XY = ck.call(lambda: X * Y)
+    sc = (1 + A.normsq(np, s)) * (1 + A.normsq(np, t))
+    ck.eq('real', XY.real.A, A.hamilton(np, p, q), scale=sc)
+    ck.eq('dual', XY.dual.A, A.hamilton(np, p, dq) + A.hamilton(np, dp, q), scale=sc)
+    G = ck.call(lambda: mk(sm.DualQuaternion, p, dp) * mk(sm.DualQuaternion, q, dq))
+    ck.eq('same-as-plain:real', XY.real.A, G.real.A, scale=sc)
+    ck.eq('same-as-plain:dual', XY.dual.A, G.dual.A, scale=sc)
+    ck.eq('matrix-form', ck.call(X.matrix) @ ck.call(lambda: Y.vec), ck.call(lambda: XY.vec), scale=sc)
